@@ -49,6 +49,10 @@ type Sess struct {
 	// Reconnect lets a second connection happen (Script runs once per connection): outbound
 	// the second dial attempt is accepted too, inbound the remote connects again after 1 s.
 	Reconnect bool
+	// ReconnectAfter: how long the inbound remote waits before it connects again (default 1 s), and how much
+	// longer the run waits for the second connection (a first connection that ends in a protocol error is
+	// followed by a hold-down of a minute).
+	ReconnectAfter time.Duration
 }
 
 func peerConfig(remote string, las, ras uint32) corebgp.PeerConfig {
@@ -108,7 +112,11 @@ func (s *Sess) Run(ch vrt.Chooser, trace bool) (*world.World, *vrt.Exec) {
 				s.Script(w, r)
 				r.Finish()
 				if s.Reconnect {
-					vrt.Sleep(time.Second)
+					if s.ReconnectAfter > 0 {
+						vrt.Sleep(s.ReconnectAfter)
+					} else {
+						vrt.Sleep(time.Second)
+					}
 					if c2, err := w.NW.DialIn("10.0.0.2:40002", libAddr); err == nil {
 						r2 := w.NewRemote(c2, "P1")
 						s.Script(w, r2)
@@ -125,8 +133,8 @@ func (s *Sess) Run(ch vrt.Chooser, trace bool) (*world.World, *vrt.Exec) {
 		if s.Reconnect {
 			want = 2
 		}
-		vrt.NewTimer(15 * time.Second)
-		dl := vrt.Cur().Now() + int64(15*time.Second)
+		vrt.NewTimer(15*time.Second + s.ReconnectAfter)
+		dl := vrt.Cur().Now() + int64(15*time.Second+s.ReconnectAfter)
 		vrt.WaitLog("remote-done", func() bool { return w.AllRemotesDone(want) || (s.Reconnect && vrt.Cur().Now() >= dl) })
 		vrt.LogTouch()
 		w.Close()
